@@ -45,7 +45,8 @@ Theorem C18_prog_context_preserved : forall en p, is_real (tau en) = true -> pro
 Proof. exact prog_context_preserved. Qed.
 Print Assumptions C18_prog_context_preserved.
 
-(* all modelled entry points, all option sets, mask (if any) in the data's dtype, no exception fallback: *)
+(* all modelled entry points, all option sets (incl. the exception fallback of active_set_nnls, repaired by c906acd),
+   mask (if any) in the data's dtype: *)
 Theorem C18_skeletons_preserve_precision : forall t c n s e,
   In t ctxs -> valid_cfg c -> In (s, e) (p_outs (skeleton c)) -> float_out (s, e) = true ->
   strongP t (eval (mkenv t t) (run (mkenv t t) (skeleton c) n) e) = true.
@@ -58,37 +59,58 @@ Theorem C18_skeletons_preserve_context_partial : forall t c n s e,
 Proof. exact skeletons_preserve_context. Qed.
 Print Assumptions C18_skeletons_preserve_context_partial.
 
-(* robust_pca casts the mask into the data's context: clean for every mask dtype *)
-Theorem C18_robust_pca_any_mask : forall t m n s e, In t ctxs -> In (s, e) (p_outs (skeleton (with_mask (cfg0 FRobustPca)))) ->
-  strongP t (eval (mkenv t m) (run (mkenv t m) (skeleton (with_mask (cfg0 FRobustPca))) n) e) = true.
+(* a mask that only occurs on the value side of a cast into the data's context cannot influence ANY dtype of ANY program
+   of the language (induction over expressions, statements and sweeps) *)
+Theorem C18_guarded_mask_irrelevant : forall t m m' p n, prog_guarded p = true ->
+  out_dtypes (mkenv t m) p n = out_dtypes (mkenv t m') p n.
+Proof. exact guarded_mask_irrelevant. Qed.
+Print Assumptions C18_guarded_mask_irrelevant.
+
+(* hence the skeletons WITH the mask cast (the candidate repair build/fix_candidates/C18_mask_context.diff, mc = true)
+   keep every output in the data's precision for EVERY mask dtype m, every option set, every number of sweeps *)
+Theorem C18_cast_skeletons_any_mask : forall t m c n s e,
+  In t ctxs -> valid_cfg c -> In (s, e) (p_outs (skeleton_v true c)) -> float_out (s, e) = true ->
+  strongP t (eval (mkenv t m) (run (mkenv t m) (skeleton_v true c) n) e) = true.
+Proof. exact cast_skeletons_any_mask. Qed.
+Print Assumptions C18_cast_skeletons_any_mask.
+
+(* robust_pca casts the mask into the data's context: clean for every mask dtype (in both variants) *)
+Theorem C18_robust_pca_any_mask : forall mc t m n s e, In t ctxs -> In (s, e) (p_outs (skeleton_v mc (with_mask (cfg0 FRobustPca)))) ->
+  strongP t (eval (mkenv t m) (run (mkenv t m) (skeleton_v mc (with_mask (cfg0 FRobustPca))) n) e) = true.
 Proof. exact robust_pca_any_mask. Qed.
 Print Assumptions C18_robust_pca_any_mask.
 
-(* refutations: a boolean / integer mask, or the context-less allocation in the exception fallback of active_set_nnls,
-   turns float32 data into float64 results *)
-Theorem C18_parafac_bool_mask_refuted : exists n, out_of (mkenv F32 B) (with_mask (cfg0 FParafac)) n "factors" = Some F64.
+(* refutations: WITHOUT the cast (mc = false) a boolean / integer mask turns float32 data into float64 results *)
+Theorem C18_parafac_bool_mask_refuted : exists n, out_of_v false (mkenv F32 B) (with_mask (cfg0 FParafac)) n "factors" = Some F64.
 Proof. exact parafac_bool_mask_refuted. Qed.
 Print Assumptions C18_parafac_bool_mask_refuted.
-Theorem C18_parafac_int_mask_refuted : exists n, out_of (mkenv F32 I64) (with_mask (cfg0 FParafac)) n "factors" = Some F64.
+Theorem C18_parafac_int_mask_refuted : exists n, out_of_v false (mkenv F32 I64) (with_mask (cfg0 FParafac)) n "factors" = Some F64.
 Proof. exact parafac_int_mask_refuted. Qed.
 Print Assumptions C18_parafac_int_mask_refuted.
-Theorem C18_tucker_bool_mask_refuted : exists n, out_of (mkenv F32 B) (with_mask (cfg0 FTucker)) n "core" = Some F64.
+Theorem C18_tucker_bool_mask_refuted : exists n, out_of_v false (mkenv F32 B) (with_mask (cfg0 FTucker)) n "core" = Some F64.
 Proof. exact tucker_bool_mask_refuted. Qed.
 Print Assumptions C18_tucker_bool_mask_refuted.
-Theorem C18_nn_parafac_bool_mask_refuted : exists n, out_of (mkenv F32 B) (with_mask (cfg0 FNNParafac)) n "factors" = Some F64.
+Theorem C18_nn_parafac_bool_mask_refuted : exists n, out_of_v false (mkenv F32 B) (with_mask (cfg0 FNNParafac)) n "factors" = Some F64.
 Proof. exact nn_parafac_bool_mask_refuted. Qed.
 Print Assumptions C18_nn_parafac_bool_mask_refuted.
-Theorem C18_svd_bool_mask_refuted : exists n, out_of (mkenv F32 B) (with_mask (cfg0 FSvd)) n "out0" = Some F64.
+Theorem C18_svd_bool_mask_refuted : exists n, out_of_v false (mkenv F32 B) (with_mask (cfg0 FSvd)) n "out0" = Some F64.
 Proof. exact svd_bool_mask_refuted. Qed.
 Print Assumptions C18_svd_bool_mask_refuted.
-Theorem C18_active_set_fallback_refuted : exists n, out_of (mkenv F32 F32) active_fallback n "out0" = Some F64.
-Proof. exact active_set_fallback_refuted. Qed.
-Print Assumptions C18_active_set_fallback_refuted.
+(* the exception fallback of active_set_nnls: float64 before the repair c906acd (context-less restart vector), float32 now *)
+Theorem C18_active_set_fallback_before_fix_refuted :
+  exists n, out_of_prog (mkenv F32 F32) (active_set_prog_before_c906acd active_fallback) n "out0" = Some F64.
+Proof. exact active_set_fallback_before_fix_refuted. Qed.
+Print Assumptions C18_active_set_fallback_before_fix_refuted.
+Theorem C18_active_set_fallback_now : forall n, out_of (mkenv F32 F32) active_fallback n "out0" = Some F32.
+Proof. exact active_set_fallback_now. Qed.
+Print Assumptions C18_active_set_fallback_now.
 
 (* non-vacuity: the hypotheses are satisfiable and the model computes *)
 Example C18_nonvacuous_cfg : valid_cfg (with_mask (cfg0 FParafac)) /\ In F32 ctxs /\
   out_of (mkenv F32 F32) (with_mask (cfg0 FParafac)) 7 "factors" = Some F32 /\
-  out_of (mkenv C128 C128) (cfg0 FParafac) 3 "weights" = Some C128.
+  out_of (mkenv C128 C128) (cfg0 FParafac) 3 "weights" = Some C128 /\
+  prog_guarded (skeleton_v true (with_mask (cfg0 FTucker))) = true /\ prog_guarded (skeleton_v false (with_mask (cfg0 FTucker))) = false /\
+  out_of_v true (mkenv F32 B) (with_mask (cfg0 FParafac)) 2 "factors" = Some F32.
 Proof. repeat split; try (vm_compute; reflexivity); simpl; tauto. Qed.
 Example C18_nonvacuous_expr :
   leaves_in (mkenv F32 F32) st0 F32 (Op (Div In_ (Op PyI PyF)) (Into In_ bare)) = true /\
